@@ -1,7 +1,7 @@
 //! C09: I/O faults are surfaced — failing readers (schedule with a hard
 //! error at a byte offset) and failing writers (schedule of accept counts,
 //! zero-length writes, errors) around the real decode / encode.
-use super::c08::{case_c08, code_of, decode_bytes, decode_sched, describe, diff_results, encode_text, impl_lines, kind_of, rand_sched, short, texts, Ev, KIND_NAMES};
+use super::c08::{case_c08, code_of, decode_bytes, decode_sched, describe, diff_results, encode_text, impl_lines, kind_of, lf_cuts_utf16le, rand_sched, sample_of, short, texts, Ev, KIND_NAMES};
 use crate::out::Out;
 use crate::proto::Line;
 use crate::rng::Rng;
@@ -340,7 +340,7 @@ fn read_fault(out: &mut Out, name: &str, enc: usize, data: &[u8], sched: &[Ev], 
     out.count(&format!("read.fault.{}", KIND_NAMES[k as usize]));
 }
 
-pub const RULE: &str = "read side: bundled maps (every byte offset of the small ones, sampled offsets of the large ones; UTF-8 as bundled plus UTF-16 re-encodings of small ones) and generated texts, delivered through a schedule that hands out exactly o bytes (one chunk / random pieces / with Interrupted) and then fails with Other, UnexpectedEof, PermissionDenied, TimedOut or WouldBlock; faultless schedules with random Interrupted; write side: Beatmap::encode of every decoded bundled map, generated maps and a compact map with every record kind and path-type spelling (all four modes, every output offset) into a writer that fails / returns Ok(0) after o accepted bytes (every o for small maps), with whole and short writes, Interrupted, flush failure; non-trivial = fault after at least one complete line (read) or at least 3 write calls with a non-empty schedule (write); distinct = distinct case lines";
+pub const RULE: &str = "read side: bundled maps (every byte offset of the small ones, sampled offsets of the large ones; UTF-8 as bundled plus UTF-16 re-encodings of small ones) and generated texts, delivered through a schedule that hands out exactly o bytes (one chunk / random pieces / with Interrupted) and then fails with Other, UnexpectedEof, PermissionDenied, TimedOut or WouldBlock; UTF-16LE streams (complete, and cut right after the low byte of a line feed) whose reader fails, is interrupted or ends exactly at the read of the byte after the 0x0A; faultless schedules with random Interrupted; write side: Beatmap::encode of every decoded bundled map, generated maps and a compact map with every record kind and path-type spelling (all four modes, every output offset) into a writer that fails / returns Ok(0) after o accepted bytes (every o for small maps), with whole and short writes, Interrupted, flush failure; non-trivial = fault after at least one complete line (read) or at least 3 write calls with a non-empty schedule (write); distinct = distinct case lines";
 
 pub fn generate(tier: &str, seed: u64, out: &mut Out) {
     let thorough = tier == "thorough";
@@ -397,6 +397,9 @@ pub fn generate(tier: &str, seed: u64, out: &mut Out) {
                     if let Some(d) = diff_results(&a, &reference) {
                         out.fail("", &describe(name, enc, len, &s), &format!("decode with Interrupted results vs from_bytes: {d}"));
                     }
+                    if let Ok(Err(e)) = &a {
+                        out.fail("", &describe(name, enc, len, &s), &format!("no fault was injected (Interrupted only) but decode returned {:?}", e.kind()));
+                    }
                     out.count("read.interrupted_only");
                     let _ = j;
                 }
@@ -407,6 +410,52 @@ pub fn generate(tier: &str, seed: u64, out: &mut Out) {
                 for extra in [vec![Ev::Chunk(len.max(1)), Ev::Chunk(1), Ev::Fail(1)], vec![Ev::Chunk(len + 5), Ev::Chunk(1), Ev::Chunk(1), Ev::Fail(3)], vec![Ev::Chunk(len.max(1)), Ev::Interrupted, Ev::Chunk(2), Ev::Interrupted, Ev::Fail(4)]] {
                     out.case(case_c08(&data, &extra), impl_lines(&data, &extra), describe(name, enc, len, &extra), true);
                     out.count("read.fault_after_eof(correspondence only)");
+                }
+            }
+        }
+    }
+    // the extra-byte read of read_line: after the low byte 0x0A of a UTF-16LE line feed the
+    // decoder asks the reader once more (the loop that replaced read_exact in the repair of D6).
+    // The reader fails / is interrupted / reports EOF exactly at that call.
+    {
+        let mut le_texts: Vec<(String, String)> = all.iter().filter(|(_, t)| t.len() <= 1500 && t.contains('\n')).take(if thorough { 20 } else { 3 }).cloned().collect();
+        le_texts.push(("corpus".into(), "osu file format v14\n\n[Metadata]\nTitle:abc\n".into()));
+        le_texts.push(("corpus-crlf".into(), "osu file format v14\r\n[Metadata]\r\nTitle:abc\r\nArtist:x".into()));
+        for (name, text) in &le_texts {
+            let full = encode_text(text, 2);
+            let cuts = lf_cuts_utf16le(&full);
+            let full_ref = decode_bytes(&full);
+            for c in sample_of(&mut r, &cuts, if thorough { 10 } else { 2 }) {
+                let cut = &full[..c];
+                let cut_ref = decode_bytes(cut);
+                for k in 1..=5u8 {
+                    // hard failure at the extra-byte read, complete and cut stream
+                    read_fault(out, name, 2, &full, &[Ev::Chunk(c), Ev::Fail(k)], k, c, true);
+                    let split: Vec<Ev> = if c > 3 { vec![Ev::Chunk(3), Ev::Chunk(c - 3), Ev::Interrupted, Ev::Fail(k)] } else { vec![Ev::Chunk(c), Ev::Interrupted, Ev::Fail(k)] };
+                    read_fault(out, name, 2, &full, &split, k, c, k == 1);
+                    read_fault(out, &format!("{name} cut inside the line feed"), 2, cut, &[Ev::Chunk(c), Ev::Fail(k)], k, c, k == 2);
+                    read_fault(out, &format!("{name} cut inside the line feed"), 2, cut, &[Ev::Chunk(c), Ev::Interrupted, Ev::Interrupted, Ev::Fail(k)], k, c, k == 3);
+                    out.count("read.fault_at_extra_byte_read");
+                }
+                // Interrupted / EOF at the extra-byte read: no fault, so no error, and the outcome of from_bytes
+                let cases: [(&[u8], &super::c08::MapResult, Vec<Ev>); 5] = [
+                    (&full, &full_ref, vec![Ev::Chunk(c), Ev::Interrupted, Ev::Chunk(1), Ev::Chunk(full.len())]),
+                    (&full, &full_ref, vec![Ev::Chunk(c), Ev::Interrupted, Ev::Interrupted, Ev::Interrupted, Ev::Chunk(5)]),
+                    (cut, &cut_ref, vec![Ev::Chunk(c)]),
+                    (cut, &cut_ref, vec![Ev::Chunk(c), Ev::Interrupted]),
+                    (cut, &cut_ref, vec![Ev::Chunk(c), Ev::Interrupted, Ev::Interrupted, Ev::Chunk(1), Ev::Chunk(1)]),
+                ];
+                for (data, reference, s) in &cases {
+                    let d = describe(name, 2, data.len(), s);
+                    out.case(case_c08(data, s), impl_lines(data, s), d.clone(), true);
+                    let got = decode_sched(data, s);
+                    out.oracle_checks += 1;
+                    if let Ok(Err(e)) = &got {
+                        out.fail("", &d, &format!("no fault was injected (Interrupted / end of stream at the read of the byte after 0x0A) but decode returned {:?}", e.kind()));
+                    } else if let Some(x) = diff_results(&got, reference) {
+                        out.fail("", &d, &format!("Interrupted / end of stream at the read of the byte after 0x0A changed the outcome: {x}"));
+                    }
+                    out.count("read.interrupted_or_eof_at_extra_byte_read");
                 }
             }
         }
